@@ -11,11 +11,17 @@ Oracle (from the statement only).  After a history that ends in a deletion trigg
   * every other handle either does the same (it was discarded) or is alive, and then it is the very object found
     at its path by container look-ups from the live model (no orphan that still acts), and an alive ItemSpace
     evaluates as the one of R;
-  * containers, base lists, derived flags (public description) equal those of R; no node of `model.tracegraph`
-    and no entry of preds/succs listings belongs to a dead object;
+  * containers, base lists, derived flags (public description) equal those of R; nothing reachable through the
+    containers of the live model (`spaces`, `named_spaces`, `itemspaces`, `cells`, recursively through the
+    instances) is a deleted object, is an object that does not exist according to the definitions (an ItemSpace
+    built on a deleted base is derived from the deleted object) or has a deleted space in its base list; no node
+    of `model.tracegraph` and no entry of the preds / succs / precedents listings belongs to such an object;
   * every value held anywhere in the live model equals the value R computes for the same cells and key (a value
     R cannot compute must not be held); the whole model then evaluates like R;
   * re-creating an object under the deleted name does not revive the old handles.
+A failing history goes on through the remaining checks so that each symptom is reported (one record per tag set).
+Template `select` (first, so that it always completes) is about a host formula selecting ANOTHER space as the base
+of its instances ('base' / 'bases' key); its failures carry `base-key` / `bases-key` and `selected:*` tags.
 """
 from common import *
 from c07_spec import *
@@ -116,8 +122,114 @@ def T_nested():
     return "nested", sp, items, preops
 
 
-TEMPLATES = [T_main, T_diamond, T_nested]
+# hosts of T_select: name -> (tag of the key spelling, tags of the selected space, path of the selected space,
+#                            name of the ref that provides it | None)
+SELECT_HOSTS = {}
+
+
+def T_select():
+    """a parametrised space (host) whose formula selects ANOTHER space as the base of its instances, through the
+    'base' key (hosts ..1) and through the 'bases' key (hosts ..2).  Selected: a plain top-level space without
+    child spaces (NB), a parametrised top-level space with a child (PB), a plain / a parametrised space nested in
+    a tree TR (deleted as a whole by `del m.TR`), a space DV derived from NB and from TR.TN (it survives their
+    deletion but loses the derived members), a plain space with a child named through a model-level ref (NC via
+    gsel), NB named through a ref of the host (HR.sel).  T reads through the instances by subscription, by a call
+    on a space ref, by attribute paths into child spaces of an instance and through an item of an instance."""
+    SELECT_HOSTS.clear()
+    hosts = {}
+
+    def host(name, sel, key, kinds, expr=None, refs=None):
+        f = {"params": "i", "base": tuple(sel)}
+        if key == "bases":
+            f["base_key"] = "bases"
+        if expr:
+            f["base_expr"] = expr
+        hosts[name] = S_(formula=f, refs=refs)
+        SELECT_HOSTS[name] = (key + "-key", tuple("selected:" + k for k in kinds), tuple(sel), expr)
+    for sfx, key in (("1", "base"), ("2", "bases")):
+        host("HN" + sfx, ("NB",), key, ["plain"])
+        host("HP" + sfx, ("PB",), key, ["parametrised"])
+        host("HTN" + sfx, ("TR", "TN"), key, ["plain", "nested"])
+        host("HTP" + sfx, ("TR", "TP"), key, ["parametrised", "nested"])
+        host("HD" + sfx, ("DV",), key, ["derived"])
+    host("HR", ("NB",), "base", ["plain", "via-space-ref"], expr="sel", refs={"sel": obj(("NB",))})
+    host("HC", ("NC",), "bases", ["plain", "with-child", "via-model-ref"], expr="gsel")
+    spaces = {
+        "NB": S_(cells={"foo": C_("lambda x: x * 10 + g"), "nr": C_("lambda: r + foo(1)")}, refs={"r": lit(3)}),
+        "NC": S_(cells={"cf": C_("lambda x: x + 5")}, spaces={"K": S_(cells={"kc": C_("lambda: i * 2")})}),
+        "PB": S_(formula={"params": "i"}, cells={"pf": C_("lambda x: x + i")},
+                 spaces={"PK": S_(cells={"pk": C_("lambda: i + 1")})}),
+        "TR": S_(cells={"tc": C_("lambda: 1")}, spaces={
+            "TN": S_(cells={"tn": C_("lambda x: x + 7"), "ti": C_("lambda: i + g")}),
+            "TP": S_(formula={"params": "i"}, cells={"tp": C_("lambda: i * 3")}),
+        }),
+        "DV": S_(bases=[("NB",), ("TR", "TN")], cells={"dv": C_("lambda x: foo(x) + tn(x) + 1")}),
+    }
+    spaces.update(hosts)
+    spaces["T"] = S_(
+        cells={"t1": C_("lambda x: _model.HN1[1].foo(x) + 1"), "t2": C_("lambda: hn(2).nr() + tr"),
+               "t3": C_("lambda: _model.HC[1].K.kc() + _model.HC[1].cf(1)"),
+               "t4": C_("lambda: _model.HP1[1].pf(1) + _model.HP2[1].PK.pk()"), "t5": C_("lambda: _model.HP2[1][2].pf(1)"),
+               "t6": C_("lambda x: _model.HTN1[1].tn(x) + _model.HTN2[1].ti()"),
+               "t7": C_("lambda: _model.HTP1[1].tp() + htp(1).tp()"),
+               "t8": C_("lambda x: _model.HD1[1].dv(x) + _model.HD2[1].foo(x)"),
+               "t9": C_("lambda: _model.HR[1].foo(1) + _model.HN2[1].nr()"), "tt": C_("lambda: t1(2) * 2 + t3()")},
+        refs={"hn": obj(("HN2",)), "htp": obj(("HTP2",)), "tr": lit(2)})
+    sp = Spec(refs={"g": lit(100), "gsel": obj(("NC",))}, spaces=spaces)
+    items = [("HN1", (1,)), ("HN2", (1,)), ("HN2", (2,)), ("HP1", (1,)), ("HP2", (1,)), ("HP2", (1,), (2,)),
+             ("HTN1", (1,)), ("HTN2", (1,)), ("HTP1", (1,)), ("HTP2", (1,)), ("HD1", (1,)), ("HD2", (1,)),
+             ("HR", (1,)), ("HC", (1,))]
+    preops = [
+        ("eval",),
+        ("set_cformula", ("DV", "foo"), "lambda x: x + 10"),          # override a cells derived from a selected space
+        ("set_input", ("NB", "foo"), 5, 50),
+        ("new_cells", ("NB",), "nw", "lambda: 1"),
+        ("set_ref", ("NB",), "r", lit(4)),
+        ("set_cformula", ("PB", "pf"), "lambda x: x + i + 1"),         # discards instances, handles kept
+    ]
+    return "select", sp, items, preops
+
+
+def select_tags(kind, spec_before, trig, path=None):
+    """feature tags of a failing case of T_select: key spelling and kind of the selected space of the host the
+    failing object lives in, else of every host whose selected space the trigger touches"""
+    if kind != "select":
+        return []
+    if not SELECT_HOSTS:
+        T_select()
+    if path and path[0] in SELECT_HOSTS:
+        hs = [path[0]]
+    else:
+        k = trig[0]
+        hs = []
+        for h, (_kt, _st, sel, expr) in SELECT_HOSTS.items():
+            try:
+                line = spec_before.mro(sel) if spec_before.has_space(sel) else [sel]
+            except Exception:
+                line = [sel]
+            if k == "del_space":
+                hit = any(q[:len(trig[1])] == tuple(trig[1]) for q in line)
+            elif k in ("del_cells", "del_ref"):
+                hit = tuple(trig[1]) in line or (k == "del_ref" and trig[2] == expr and tuple(trig[1]) in ((), (h,)))
+            elif k == "remove_bases":
+                hit = tuple(trig[1]) in line
+            elif k in ("set_sformula", "clear_items", "clear_space", "clear_at", "del_item"):
+                hit = tuple(trig[1]) == (h,) or (tuple(trig[1]) in line and k != "clear_space")
+            else:
+                hit = False
+            if hit:
+                hs.append(h)
+    out = []
+    for h in hs:
+        kt, st, _sel, _expr = SELECT_HOSTS[h]
+        out.append(kt)
+        out.extend(st)
+    return sorted(set(out))
+
+
+TEMPLATES = [T_select, T_main, T_diamond, T_nested]      # T_select first: its short histories always complete
 NPROC = 6            # shared machine
+STAGE_FAILS = 3                # distinct tag sets reported per check stage of one history (handles, containers, ...)
 
 # ------------------------------------------------------------------------------------------ observation
 
@@ -179,6 +291,35 @@ def lookup_noncreating(m, path):
         except (KeyError, AttributeError, IndexError):
             return None
     return o
+
+
+def listed_wrong(m, spec):
+    """walk the containers of the live model (spaces, named_spaces, itemspaces, cells, recursively) and the base
+    lists of what they list; yields (path, kind, why) for an entry that is a deleted object ("lists-deleted"),
+    that does not exist according to the definitions ("lists-nonexistent"), or whose base list names a deleted
+    space ("base-list")"""
+    def sp(s, path, dyn):
+        kind = ("item-space" if isinstance(path[-1], tuple) else "item-child") if dyn else "space"
+        if is_dead(s):
+            yield path, kind, "lists-deleted"
+            return
+        if static_image(spec, path) is None:
+            yield path, kind, "lists-nonexistent"
+        if any(is_dead(b) for b in s.bases):
+            yield path, kind, "base-list"
+        for n in list(s.cells):
+            c = s.cells[n]
+            ck = "item-cells" if dyn else "cells"
+            if is_dead(c):
+                yield path + (n,), ck, "lists-deleted"
+            elif static_image(spec, path + (n,)) is None:
+                yield path + (n,), ck, "lists-nonexistent"
+        for n in list(s.named_spaces):
+            yield from sp(s.named_spaces[n], path + (n,), dyn)
+        for key, it in list(s.itemspaces.items()):
+            yield from sp(it, path + ((tuple(key) if isinstance(key, tuple) else (key,)),), True)
+    for n in list(m.spaces):
+        yield from sp(m.spaces[n], (n,), False)
 
 
 def static_image(spec, path):
@@ -390,11 +531,27 @@ def _run_case(tname, pre, trig):
     spec_before = spec.copy()
     tclass = trigger_class(trig)
 
-    def fail(tags, what, tail):
-        rec["fail"] = dict(tags=tuple([kind, trig[0], tclass] + list(tags)), what="after %s: %s" % (
-            code_op(trig, "m") if trig[0] != "close" else "m.close()", what), case=key,
-            script="\n".join(script + tail) + "\n")
+    seen_tags = set()
+    cap = [STAGE_FAILS]
+
+    def stage():
+        cap[0] = len(seen_tags) + STAGE_FAILS
+
+    def fail(tags, what, tail, path=None):
+        """record a violation; the case goes on so that the other symptoms of the same history are reported too
+        (one record per distinct tag set, at most MAX_FAILS_PER_CASE)"""
+        f = dict(tags=tuple([kind, trig[0], tclass] + list(tags) + select_tags(kind, spec_before, trig, path)),
+                 what="after %s: %s" % (code_op(trig, "m") if trig[0] != "close" else "m.close()", what), case=key,
+                 script="\n".join(script + tail) + "\n")
         rec["nontrivial"] = True
+        tk = tuple(sorted(set(f["tags"])))
+        if tk in seen_tags or len(seen_tags) >= cap[0]:
+            return rec
+        seen_tags.add(tk)
+        if "fail" not in rec:
+            rec["fail"] = f
+        else:
+            rec.setdefault("more_fails", []).append(f)
         return rec
 
     # ---- the trigger
@@ -432,9 +589,10 @@ def _run_case(tname, pre, trig):
                 required_dead += 1
                 s = node_serves(h)
                 if s:
-                    return fail(["node", "serves"], "node of %s: %s" % (code_path("m", cpath), s), [
+                    fail(["node", "serves"], "node of %s: %s" % (code_path("m", cpath), s), [
                         "c = " + code_path("m", cpath), "n = c.node(*list(c)[0:1]) if c.parameters else c.node()",
-                        trig_line, "r = val(lambda: n.value)", "print(r)", "sys.exit(1 if r[0] == 'v' else 0)"])
+                        trig_line, "r = val(lambda: n.value)", "print(r)", "sys.exit(1 if r[0] == 'v' else 0)"],
+                        path=cpath)
             continue
         img = static_image(spec, path)
         dead = is_dead(h)
@@ -442,10 +600,11 @@ def _run_case(tname, pre, trig):
             required_dead += 1
             rel_ = relation(spec_before, spec, trig, path, hk)
             if not dead:
-                return fail([hk, "alive", rel_], "handle %s (%s, %s) does not raise DeletedObjectError"
-                            % (code_path("m", path), hk, rel_),
-                            handle_script(path, ["r = val(lambda: h.name)", "print(r)",
-                                                 "sys.exit(0 if r == ('deleted',) else 1)"]))
+                fail([hk, "alive", rel_], "handle %s (%s, %s) does not raise DeletedObjectError"
+                     % (code_path("m", path), hk, rel_),
+                     handle_script(path, ["r = val(lambda: h.name)", "print(r)",
+                                          "sys.exit(0 if r == ('deleted',) else 1)"]), path=path)
+                continue
         if dead:
             nparams = None
             had_formula = False
@@ -463,91 +622,147 @@ def _run_case(tname, pre, trig):
                 member = cs[0] if cs else None
             bad = probe_dead(h, hk, nparams, had_formula, member)
             if bad:
-                return fail([hk, "partial", bad[0][0]], "dead handle %s still answers: %r" % (code_path("m", path), bad[:4]),
-                            handle_script(path, ["r = val(lambda: h.name)", "print(r)"]))
+                fail([hk, "partial", bad[0][0]], "dead handle %s still answers: %r" % (code_path("m", path), bad[:4]),
+                     handle_script(path, ["r = val(lambda: h.name)", "print(r)"]), path=path)
         else:
             now = lookup_noncreating(m, path)
             if now is not h:
-                return fail([hk, "orphan"], "handle %s is alive but is not the object found at its path (%r)"
-                            % (code_path("m", path), now),
-                            handle_script(path, ["r = val(lambda: h.name)", "print(r)"]))
-    rec["nontrivial"] = required_dead > 0 or tclass == "itemspace-discard"
+                fail([hk, "orphan"], "handle %s is alive but is not the object found at its path (%r)"
+                     % (code_path("m", path), now),
+                     handle_script(path, ["r = val(lambda: h.name)", "print(r)"]), path=path)
+    rec["nontrivial"] = rec["nontrivial"] or required_dead > 0 or tclass == "itemspace-discard"
 
     # ---- 2. containers / base lists against the model rebuilt from the definitions
     skip = dangling_spaces(spec)          # spaces that now hold a ref to a deleted object: using them may raise
     strip_dangling(spec)
     r = build(spec, "R", dangling="omit")
     try:
-        d = diff(describe(m, True), describe(r, True))
-        if d:
-            return fail(["containers"], "public description differs from the model rebuilt from the definitions "
-                        "(left = live): %s" % d, [trig_line, "# compare with a model rebuilt from the definitions:",
-                                                  code_build(spec, "r", "R"), "print(%r)" % d, "sys.exit(1)"])
-        # ---- 3. dependency listings
-        for nd in list(m.tracegraph.nodes):
-            if is_dead(nd[0].interface):
-                return fail(["tracegraph"], "tracegraph still holds a node of a deleted object: %r" % (nd[1],),
-                            [trig_line, "dead = [n for n in m.tracegraph.nodes if not n[0].interface._is_valid()]",
-                             "print(dead)", "sys.exit(1 if dead else 0)"])
-        for cp, vals in held(m).items():
-            c = get(m, cp)
-            for k in list(vals)[:3]:
-                kk = k if isinstance(k, tuple) else (k,)
-                for lst in (c.preds(*kk), c.succs(*kk)):
-                    for nd in lst:
-                        try:
-                            if is_dead(nd.obj):
-                                return fail(["listing"], "preds/succs of %s%r lists a deleted object"
-                                            % (code_path("m", cp), kk), [trig_line])
-                        except DeletedObjectError:
-                            return fail(["listing"], "preds/succs of %s%r lists a deleted object"
-                                        % (code_path("m", cp), kk), [trig_line])
-        # ---- 4. held values
-        hm = held(m)
-        for cp, vals in hm.items():
-            rc = get(r, cp)
-            for k, v in vals.items():
-                kk = k if isinstance(k, tuple) else (k,)
-                try:
-                    want = ("v", norm(rc(*kk)))
-                except Exception:
-                    want = ("exc",)
-                if want != ("v", v):
-                    return fail(["held-value", "static"], "%s holds %r at %r; rebuilt from the definitions it is %r"
-                                % (code_path("m", cp), v, kk, want),
-                                ["c = " + code_path("m", cp), trig_line, "print(dict(c))",
-                                 "# rebuilt from the definitions:", code_build(spec, "r", "R"),
-                                 "want = val(lambda: %s(*%r))" % (code_path("r", cp), kk), "print(want)",
-                                 "sys.exit(1 if %r in dict(c) and ('v', dict(c)[%r]) != want else 0)" % (k, k)])
-        # alive instances: as in R
-        for (hp, _id), (path, hk, h) in H.items():
-            if hk != "item-space" or is_dead(h):
-                continue
-            try:
-                ro = get(r, path)
-            except Exception:
-                ro = None
-            got = eval_space(h)
-            want = eval_space(ro) if ro is not None else None
-            if got != want:
-                return fail(["held-value", "instance"], "surviving %s evaluates to %r; rebuilt from the definitions: %r"
-                            % (code_path("m", path), got, want), handle_script(path, []))
-        # ---- 5. the model keeps working and agrees with R everywhere
-        em = {k: v for k, v in evaluate(m).items() if k[:-1] not in skip}
-        er = {k: v for k, v in evaluate(r).items() if k[:-1] not in skip}
-        if em != er:
-            for k in sorted(set(em) | set(er)):
-                if em.get(k) != er.get(k):
-                    return fail(["post-eval"], "%s evaluates to %r; rebuilt from the definitions: %r"
-                                % (code_path("m", k), em.get(k), er.get(k)),
-                                [trig_line, "touch()", code_build(spec, "r", "R"),
-                                 "a = val(lambda: %s(*([0] * len(%s.parameters))))" % (code_path("m", k), code_path("m", k)),
-                                 "b = val(lambda: %s(*([0] * len(%s.parameters))))" % (code_path("r", k), code_path("r", k)),
-                                 "print(a, b)", "sys.exit(0 if a == b else 1)"])
+        try:
+            _after_checks(m, r, spec, H, skip, trig, trig_line, fail, handle_script, rec, stage)
+        except Exception as e:
+            # a violation was already recorded for this history and the orphaned state it left makes a later
+            # query fail: keep the recorded symptoms (an exception on a so far clean history propagates)
+            if "fail" not in rec:
+                raise
+            rec["notes"].append("later checks of a failing case stopped by %s" % type(e).__name__)
     finally:
         r.close()
+    return rec
+
+
+def listed_script(path, why, trig_line):
+    """replay lines: handle `h` and its container `p` are taken before the trigger; afterwards, is `h` still listed
+    by `p` (why = lists-*), or does the base list of the still listed `h` name a deleted space (why = base-list)"""
+    L = ["h = " + code_path("m", path), "p = " + code_path("m", path[:-1]), trig_line]
+    if len(path) == 1:
+        L.append("r = val(lambda: any(x is h for x in p.spaces.values()))")
+    elif isinstance(path[-1], tuple):
+        L.append("r = val(lambda: any(x is h for x in p.itemspaces.values()))")
+    else:
+        L.append("r = val(lambda: any(x is h for x in list(p.cells.values()) + list(p.named_spaces.values())))")
+    if why == "base-list":
+        L.append("r = val(lambda: r == ('v', True) and any(val(lambda: b.name) == ('deleted',) for b in h.bases))")
+    return L + ["print(r)", "sys.exit(1 if r == ('v', True) else 0)"]
+
+
+def _after_checks(m, r, spec, H, skip, trig, trig_line, fail, handle_script, rec, stage):
+    stage()
+    d = diff(describe(m, True), describe(r, True))
+    if d:
+        fail(["containers"], "public description differs from the model rebuilt from the definitions "
+             "(left = live): %s" % d, [trig_line, "# compare with a model rebuilt from the definitions:",
+                                       code_build(spec, "r", "R"), "print(%r)" % d, "sys.exit(1)"])
+    for lp, lk, why in listed_wrong(m, spec):
+        fail(["container", why, lk], "%s is still listed by the containers of the model (%s)"
+             % (code_path("m", lp), why),
+             listed_script(lp, why, trig_line), path=lp)
+    # ---- 3. dependency listings
+    stage()
+    where = {id(h): path for (_hp, _id), (path, hk, h) in H.items() if hk != "node"}
+    for nd in list(m.tracegraph.nodes):
+        if is_dead(nd[0].interface):
+            fail(["tracegraph"], "tracegraph still holds a node of a deleted object: %r" % (nd[1],),
+                 [trig_line, "dead = [n for n in m.tracegraph.nodes if not n[0].interface._is_valid()]",
+                  "print(dead)", "sys.exit(1 if dead else 0)"])
+            continue
+        np_ = where.get(id(nd[0].interface))
+        if np_ is not None and static_image(spec, np_) is None:
+            fail(["tracegraph", "nonexistent"], "tracegraph still holds a node of %s, which does not "
+                 "exist any more according to the definitions" % code_path("m", np_),
+                 handle_script(np_, ["bad = [n for n in m.tracegraph.nodes if n[0].interface is h]", "print(bad)",
+                                     "sys.exit(1 if bad else 0)"]), path=np_)
+    stage()
+    for cp, vals in held(m).items():
+        c = get(m, cp)
+        for k in list(vals)[:3]:
+            kk = k if isinstance(k, tuple) else (k,)
+            for lst in (c.preds(*kk), c.succs(*kk), c.precedents(*kk)):
+                for nd in lst:
+                    try:
+                        gone = is_dead(nd.obj)
+                    except DeletedObjectError:
+                        gone = True
+                    if gone:
+                        fail(["listing"], "preds/succs/precedents of %s%r lists a deleted object"
+                             % (code_path("m", cp), kk), [trig_line], path=cp)
+                        continue
+                    np_ = where.get(id(nd.obj))
+                    if np_ is not None and static_image(spec, np_) is None:
+                        fail(["listing", "nonexistent"], "preds/succs/precedents of %s%r lists %s, which "
+                             "does not exist any more according to the definitions"
+                             % (code_path("m", cp), kk, code_path("m", np_)),
+                             handle_script(np_, ["c = " + code_path("m", cp),
+                                                 "r = val(lambda: [n for n in c.preds(*%r) + c.succs(*%r) + "
+                                                 "c.precedents(*%r) if n.obj is h])" % (kk, kk, kk), "print(r)",
+                                                 "sys.exit(1 if r[0] == 'v' and r[1] else 0)"]), path=np_)
+    # ---- 4. held values
+    stage()
+    hm = held(m)
+    for cp, vals in hm.items():
+        rc = get(r, cp)
+        for k, v in vals.items():
+            kk = k if isinstance(k, tuple) else (k,)
+            try:
+                want = ("v", norm(rc(*kk)))
+            except Exception:
+                want = ("exc",)
+            if want != ("v", v):
+                fail(["held-value", "static"], "%s holds %r at %r; rebuilt from the definitions it is %r"
+                     % (code_path("m", cp), v, kk, want),
+                     ["c = " + code_path("m", cp), trig_line, "print(dict(c))",
+                      "# rebuilt from the definitions:", code_build(spec, "r", "R"),
+                      "want = val(lambda: %s(*%r))" % (code_path("r", cp), kk), "print(want)",
+                      "sys.exit(1 if %r in dict(c) and ('v', dict(c)[%r]) != want else 0)" % (k, k)], path=cp)
+    # alive instances: as in R
+    stage()
+    for (hp, _id), (path, hk, h) in H.items():
+        if hk != "item-space" or is_dead(h) or static_image(spec, path) is None:
+            continue                   # (an alive instance of something that no longer exists: reported in 1.)
+        try:
+            ro = get(r, path)
+        except Exception:
+            ro = None
+        got = eval_space(h)
+        want = eval_space(ro) if ro is not None else None
+        if got != want:
+            fail(["held-value", "instance"], "surviving %s evaluates to %r; rebuilt from the definitions: %r"
+                 % (code_path("m", path), got, want), handle_script(path, []), path=path)
+    # ---- 5. the model keeps working and agrees with R everywhere
+    em = {k: v for k, v in evaluate(m).items() if k[:-1] not in skip}
+    er = {k: v for k, v in evaluate(r).items() if k[:-1] not in skip}
+    if em != er:
+        for k in sorted(set(em) | set(er)):
+            if em.get(k) != er.get(k):
+                fail(["post-eval"], "%s evaluates to %r; rebuilt from the definitions: %r"
+                     % (code_path("m", k), em.get(k), er.get(k)),
+                     [trig_line, "touch()", code_build(spec, "r", "R"),
+                      "a = val(lambda: %s(*([0] * len(%s.parameters))))" % (code_path("m", k), code_path("m", k)),
+                      "b = val(lambda: %s(*([0] * len(%s.parameters))))" % (code_path("r", k), code_path("r", k)),
+                      "print(a, b)", "sys.exit(0 if a == b else 1)"], path=k)
+                break
 
     # ---- 6. re-creating the name does not revive old handles
+    stage()
     redo = None
     if trig[0] == "del_cells":
         redo = ("new_cells", trig[1], trig[2], "lambda: 0")
@@ -563,63 +778,77 @@ def _run_case(tname, pre, trig):
             raise
         except Exception as e:
             rec["notes"].append("re-creation refused: %s -> %s" % (code_op(redo), type(e).__name__))
-            return rec
+            return
         for path, hk, h in dead_before:
             if not is_dead(h):
-                return fail([hk, "revived"], "after re-creating the name, old handle %s is alive again"
-                            % code_path("m", path),
-                            handle_script(path, [code_op(redo, "m"), "r = val(lambda: h.name)", "print(r)",
-                                                 "sys.exit(0 if r == ('deleted',) else 1)"]))
-    return rec
+                fail([hk, "revived"], "after re-creating the name, old handle %s is alive again"
+                     % code_path("m", path),
+                     handle_script(path, [code_op(redo, "m"), "r = val(lambda: h.name)", "print(r)",
+                                          "sys.exit(0 if r == ('deleted',) else 1)"]), path=path)
+
+
+def case_triggers(tname, pre, thin=False):
+    """the deletion triggers applicable after the history `pre`; thin: without the instance-discarding triggers
+    applied to the hosts of T_select themselves (parameter formula delete/change, clear_*, del item)"""
+    tmpl = {t.__name__: t for t in TEMPLATES}[tname]
+    _, spec0, items, _ = tmpl()
+    sp = spec0.copy()
+    for op in pre:
+        if op[0] != "eval":
+            sp.apply(op)
+    T = triggers(sp, items)
+    if thin:
+        T = [t for t in T if not (trigger_class(t) == "itemspace-discard" and len(t) > 1 and t[1]
+                                  and t[1][0] in SELECT_HOSTS)]
+    return T
 
 
 def worker(job):
-    tname, pre, lo, hi = job
-    tmpl = {t.__name__: t for t in TEMPLATES}[tname]
-    _, spec0, items, _ = tmpl()
-    sp = spec0.copy()
-    for op in pre:
-        if op[0] != "eval":
-            sp.apply(op)
-    return [run_case(tname, list(pre), t) for t in triggers(sp, items)[lo:hi]]
+    tname, pre, lo, hi, thin = job
+    return [run_case(tname, list(pre), t) for t in case_triggers(tname, pre, thin)[lo:hi]]
 
 
-def chunked(tname, pre):
-    tmpl = {t.__name__: t for t in TEMPLATES}[tname]
-    _, spec0, items, _ = tmpl()
-    sp = spec0.copy()
-    for op in pre:
-        if op[0] != "eval":
-            sp.apply(op)
-    n = len(triggers(sp, items))
-    return [(tname, pre, lo, lo + 8) for lo in range(0, n, 8)]
+def chunked(tname, pre, thin=False):
+    n = len(case_triggers(tname, pre, thin))
+    return [(tname, pre, lo, lo + 8, thin) for lo in range(0, n, 8)]
 
 
 def run(res, tier, seed):
     maxpre = 2 if tier == "quick" else 3
-    res.bound = ("3 model templates (<= 12 spaces, nesting <= 3: multiple inheritance incl. a diamond and derived-of-"
+    res.bound = ("4 model templates (<= 22 spaces, nesting <= 3: multiple inheritance incl. a diamond and derived-of-"
                  "derived, parametrised spaces with child spaces, parametrised child, item of item, derived "
                  "parametrised space, formula choosing another base, dependents reading by name / cells ref / space "
                  "ref / attribute path / through an instance; nested child / grandchild / parametrised child spaces "
                  "of a space as bases of spaces outside it: top level, derived-of-derived, nested elsewhere, next to "
-                 "a surviving base with the same name, and of a sibling inside it); histories = every sequence of <= %d preparatory steps (quick: "
-                 "length-2 prefixes in one order only) "
+                 "a surviving base with the same name, and of a sibling inside it; template `select`: 12 parametrised "
+                 "hosts whose formula selects ANOTHER space as the base of their instances through the 'base' key and "
+                 "through the 'bases' key - selected = plain top-level space without children / parametrised top-level "
+                 "space with a child / plain and parametrised space nested in a tree / space derived from two of "
+                 "them / plain space with a child named through a model-level ref / plain space named through a ref "
+                 "of the host - instances (and an item of an instance) created and evaluated before the deletion, a "
+                 "third space reading through them by subscription, by a call on a space ref and by attribute paths "
+                 "into their child spaces); histories = every sequence of <= %d preparatory steps (quick: "
+                 "length-2 prefixes in one order only; template `select`: <= %d steps, and in the quick tier the "
+                 "triggers that discard the instances of a host itself only after the empty history) "
                  "out of 5-6 (evaluate everything, override a derived cells, input, new base cells, ref change, base "
                  "edit that discards instances; each followed by full evaluation and a harvest of handles to every "
                  "reachable object and node) ending in every deletion trigger applicable: del of every defined cells / "
                  "ref / space, every remove_bases, parameter formula delete/change, clear_items / clear_all / "
-                 "clear_at / del item, model clear_all, model close" % maxpre)
-    res.rule = ("exhaustive product prefix x trigger.  non-trivial = at least one earlier handle denotes an object that "
+                 "clear_at / del item, model clear_all, model close" % (maxpre, 1 if tier == "quick" else 2))
+    res.rule = ("exhaustive product prefix x trigger (template `select` first, then breadth first).  non-trivial = at "
+                "least one earlier handle denotes an object that "
                 "no longer exists according to the definitions after the trigger (or the trigger discards instances); "
-                "distinct = distinct (template, prefix, trigger)")
+                "distinct = distinct (template, prefix, trigger); a failing history reports each distinct symptom "
+                "(tag set) once, at most %d per check stage" % STAGE_FAILS)
     jobs = []
     for t in TEMPLATES:
         _, spec0, items, preops = t()
-        for n in range(0, maxpre + 1):
+        sel = t is T_select
+        for n in range(0, (maxpre - 1 if sel else maxpre) + 1):
             for pre in itertools.permutations(preops, n):
                 if tier == "quick" and n == 2 and preops.index(pre[0]) > preops.index(pre[1]):
                     continue            # quick: unordered pairs only
-                jobs.extend(chunked(t.__name__, pre))
+                jobs.extend(chunked(t.__name__, pre, thin=sel and tier == "quick" and n > 0))
     jobs.sort(key=lambda j: len(j[1]))          # breadth first: short histories of every template before long ones
     complete = run_jobs(res, jobs, worker, nproc=NPROC)
     if complete and tier != "quick":
